@@ -37,6 +37,11 @@ def evalT (fn : String) (args : List String) (impl : String) : Option Verdict :=
     some { model := impl,
            propFails := if impl.startsWith "panic" then
              [s!"C07 the gtp5g driver faulted on a damaged {args.headD "?"} IE ({(args.getD 2 "").length / 2} octets); in the event loop this takes the UPF down"] else [] }
+  | "proc.died" =>
+    -- the process running the real code was brought down by a fault in one of the implementation's own goroutines, outside
+    -- every guard, while (or right after) it was handed this input: in the UPF that is the end of the process
+    some { model := "alive",
+           propFails := [s!"C07 handed {String.intercalate " " (args.take 3)} …, the process died: {impl} — a fault in a goroutine of the implementation that no recover covers ends the UPF"] }
   | "mal.send" =>
     some { model := "alive",
            propFails := if impl == "alive" then [] else
